@@ -297,6 +297,11 @@ where
 				ValueType::Arraylike { element_type: b } => a.is_like(b),
 				_ => self == other,
 			},
+			ValueType::Struct { .. } | ValueType::Word { .. } => match other
+			{
+				ValueType::UnresolvedStructOrWord { identifier: None } => true,
+				_ => self == other,
+			},
 			_ => self == other,
 		}
 	}
